@@ -13,13 +13,16 @@ def run(ctx, replay=None):
               dict(shape="chain", max_env=2, flags="m,c", faults=True),
               dict(shape="chain", max_env=1, flags="m,c,e", faults=True, env="EditProfile,Expire,Edit,DeleteArt"),
               dict(shape="chain", max_env=1, flags="m,c", faults=True, env="SetIssuer,Edit"),
-              dict(shape="chain", max_env=1, flags="m,c", faults=True, env="SetProfile,EditProfile")]
+              dict(shape="chain", max_env=1, flags="m,c", faults=True, env="SetProfile,EditProfile"),
+              dict(shape="deep", max_env=1, flags="m,c", faults=True, env="Edit,DeleteArt,Truncate,StripKey")]      # four tiers: death between any two of four writes
     else:
-        mc = [dict(shape="chain", max_env=3), dict(shape="star", max_env=3),
+        mc = [dict(shape="chain", max_env=3), dict(shape="star", max_env=3), dict(shape="deep", max_env=2),
               dict(shape="chain", max_env=0, flagsets="AllFlagSets", env="EverythingEnv", simulate="num=3000,depth=100")]
         ex = [dict(shape="chain", max_env=2, flags="m,c,o", extra="a", faults=True),
               dict(shape="star", max_env=2, flags="m,c,o", faults=True),
               dict(shape="two", max_env=2, flags="m,c", faults=True),
+              dict(shape="deep", max_env=2, flags="m,c", faults=True),
+              dict(shape="deep", max_env=0, flags="m,c,o,e", extra="a", faults=True, random_walks=20000, walk_len=12),
               dict(shape="chain", max_env=0, flags="m,c,o,e", extra="a", faults=True, random_walks=40000, walk_len=10),
               dict(shape="chain", max_env=2, flags="m,c", faults=True, env="SetIssuer,Edit,DeleteArt,StripKey"),
               dict(shape="two", max_env=0, flags="m,c,o,e", extra="a", faults=True, random_walks=20000, walk_len=12,
